@@ -514,3 +514,118 @@ def p3(facts, tier):
             has_raw = any(isinstance(s, tuple) and s[0] in RAW for s in rx.symbols(l1))
             yield ob(["C04"], "P3", key, "pass", where(f), "no raw event without a Packed yes" +
                      (f"; raw path guarded by {sorted(map(repr, guards))}" if has_raw else ""), nontrivial=has_raw)
+
+
+# ---------------------------------------------------------------------------------------------
+# P6 (C11): the layout facts recorded in derived schemas are the compiler's facts
+
+def str_lit(n):
+    for x in walk_(n):
+        if x.get("k") == "Lit" and "str" in x:
+            return x["str"]
+    return None
+
+
+def walk_(n):
+    from ..ir import walk
+    return walk(n)
+
+
+def some_const(n):
+    n = peel_block(peel(n))
+    if n.get("k") == "Adt" and n.get("variant") == "Some" and n["fields"]:
+        v = peel_block(peel(n["fields"][0]["e"]))
+        while v.get("k") == "Block" and v.get("e"):
+            v = peel_block(peel(v["e"]))
+        if v.get("k") in ("ConstBlock", "Const", "Lit"):
+            return v.get("val", v.get("int"))
+        if v.get("k") == "Call" and callee(v) in ("core::mem::size_of", "core::mem::align_of"):
+            return (callee(v).rsplit("::", 1)[-1], v["targs"][0])
+    if n.get("k") == "Adt" and n.get("variant") == "None":
+        return "None"
+    return "?"
+
+
+@rule("P6", ["C11"], floor=200, doc="layout facts recorded in derived schemas are rustc's facts: size_of/align_of are taken of Self, each field's recorded "
+      "offset is that field's offset in layout_of(Self), the discriminant width is the tag's, and an enum that claims an explicit repr "
+      "records its real discriminant values")
+def p6(facts, tier):
+    from ..flow import parent_map
+    from ..ir import walk
+    for m in corpus_types(facts):
+        ty = m["id"]
+        sf = impl_fn(facts, ty, "savefile::WithSchema", "schema")
+        lay = facts.layouts.get(ty)
+        if sf is None or lay is None:
+            continue
+        bad = []
+        checked = 0
+        pm = parent_map(sf["body"])
+        for x in walk(sf["body"]):
+            if x.get("k") != "Call":
+                continue
+            c = callee(x) or ""
+            if c in ("savefile::SchemaStruct::new_unsafe", "savefile::SchemaEnum::new_unsafe"):
+                sz, al = some_const(x["args"][-2]), some_const(x["args"][-1])
+                checked += 2
+                if sz != ("size_of", ty):
+                    bad.append(f"recorded size is {sz}, not size_of::<Self>()")
+                if al != ("align_of", ty):
+                    bad.append(f"recorded alignment is {al}, not align_of::<Self>()")
+                if c.endswith("SchemaEnum::new_unsafe") and len(x["args"]) >= 6:
+                    w = peel(x["args"][2])
+                    explicit = peel(x["args"][3])
+                    wv = w.get("int") if w.get("k") == "Lit" else None
+                    ev_ = explicit.get("int") if explicit.get("k") == "Lit" else None
+                    checked += 1
+                    tagw = {"u8": 1, "i8": 1, "u16": 2, "i16": 2, "u32": 4, "i32": 4, "u64": 8, "i64": 8, "isize": 8, "usize": 8}.get(
+                        (lay.get("tag") or {}).get("prim"))
+                    if ev_:
+                        # recorded discriminants vs actual
+                        rec = {}
+                        for y in walk(x):
+                            if y.get("k") == "Adt" and y.get("adt") == "savefile::Variant":
+                                nm = d = None
+                                for fl in y["fields"]:
+                                    if fl["f"] == "name":
+                                        nm = str_lit(fl["e"])
+                                    if fl["f"] == "discriminant":
+                                        dd = peel(fl["e"])
+                                        d = dd.get("int") if dd.get("k") == "Lit" else None
+                                rec[nm] = d
+                        for lv in lay.get("variants", []):
+                            checked += 1
+                            if lv["name"] in rec and rec[lv["name"]] is not None and rec[lv["name"]] != lv["discr"]:
+                                bad.append(f"variant {lv['name']}: schema records discriminant {rec[lv['name']]}, memory holds {lv['discr']} "
+                                           f"(explicit repr claimed): two sides with different explicit values compare as layout-compatible")
+            if c == "savefile::Field::unsafe_new" and len(x["args"]) == 3:
+                name = str_lit(x["args"][0])
+                off = some_const(x["args"][2])
+                # which variant?
+                variant = None
+                for a in ancestors_(pm, x):
+                    if a.get("k") == "Adt" and a.get("adt") == "savefile::Variant":
+                        for fl in a["fields"]:
+                            if fl["f"] == "name":
+                                variant = str_lit(fl["e"])
+                        break
+                fields = lay.get("fields")
+                if variant is not None:
+                    fields = next((v.get("fields") for v in lay.get("variants", []) if v["name"] == variant), None)
+                lf = next((f for f in (fields or []) if f["name"] == name), None)
+                if off in ("None", "?") or lf is None:
+                    continue   # unknown / computed at run time (enum variant fields): nothing recorded statically
+                checked += 1
+                if off != lf["offset"]:
+                    bad.append(f"field {variant + '.' if variant else ''}{name}: schema records offset {off}, layout_of says {lf['offset']}")
+        if bad:
+            yield ob(["C11"], "P6", ty, "violation", where(sf), f"{ty}: " + "; ".join(bad[:3]), program=ty)
+        elif checked:
+            yield ob(["C11"], "P6", ty, "pass", where(sf), f"{checked} recorded layout facts equal the compiler's", program=ty)
+
+
+def ancestors_(pm, n):
+    p = pm.get(id(n))
+    while p is not None:
+        yield p
+        p = pm.get(id(p))
